@@ -508,6 +508,9 @@ impl SubRule {
             let before_opt_pos = *pos;
             if self.match_opt_states(opt_states, word, pos, forwards)? {
                 let after_opt_pos = *pos;
+                // what the repetitions so far have bound stays bound for the next one (`([Astrid], 2)` must agree with itself)
+                let after_opt_alphas = self.alphas.borrow().clone();
+                let after_opt_varlbs = self.variables.borrow().clone();
                 let mut m = true;
                 while *state_index < states.len() {
                     #[cfg(asca_verif)] crate::verif::tick(20);
@@ -523,10 +526,10 @@ impl SubRule {
                     // a repetition that consumed nothing (e.g. `($,0)`) would be repeated for ever to the same effect
                     if after_opt_pos == before_opt_pos { return Ok(false) }
                     index += 1;
-                    // the rest of the environment may have consumed segments before it failed: go back to just after this repetition
+                    // the rest of the environment may have consumed segments (and bound alphas) before it failed: go back to just after this repetition
                     *pos = after_opt_pos;
-                    *self.alphas.borrow_mut() = back_alphas.clone();
-                    *self.variables.borrow_mut() = back_varlbs.clone();
+                    *self.alphas.borrow_mut() = after_opt_alphas;
+                    *self.variables.borrow_mut() = after_opt_varlbs;
                     continue;
                 }
             } else {
